@@ -51,8 +51,10 @@ def seed_from_env(default=0) -> int:
 
 
 def scratch(tag: str) -> Path:
-    d = WORK / f"{tag}-{os.getpid()}-{int(time.time() * 1000) % 100000000}"
-    d.mkdir(parents=True, exist_ok=True)
+    import uuid
+
+    d = WORK / f"{tag}-{os.getpid()}-{uuid.uuid4().hex[:10]}"
+    d.mkdir(parents=True, exist_ok=False)
     return d
 
 
